@@ -328,6 +328,9 @@ def worker_main(conn):
         import streamz  # noqa
         import crosshair.core_and_libs  # noqa
         tune_crosshair()
+        if os.environ.get("VERIF_MUTANT"):
+            import mutants
+            mutants.apply(os.environ["VERIF_MUTANT"])
         try:
             import streamz.dataframe  # noqa
         except Exception:
